@@ -418,6 +418,9 @@ func execBM(c *bmCase) []string {
 	lines := []string{"begin bm25"}
 	idx := comet.NewBM25SearchIndex()
 	d := &bmDict{id: map[string]int{}}
+	// search objects are executed at once, at once and again after the next Add / Remove / Flush,
+	// or only after it (rexec.go); the search line is emitted where the Execute happens
+	var rex rexQueue
 	for _, cmd := range c.Cmds {
 		switch cmd.Op {
 		case "add":
@@ -425,15 +428,19 @@ func execBM(c *bmCase) []string {
 			err := idx.Add(cmd.ID, cmd.Text)
 			lines = append(lines, fmt.Sprintf("op add %d %s => %s", cmd.ID, d.list(toks), bmErr(err)))
 			lines = append(lines, bmStateLine(idx, d))
+			rex.run()
 		case "remove":
 			err := idx.Remove(cmd.ID)
 			lines = append(lines, fmt.Sprintf("op remove %d => %s", cmd.ID, bmErr(err)))
 			lines = append(lines, bmStateLine(idx, d))
+			rex.run()
 		case "flush":
 			err := idx.Flush()
 			lines = append(lines, "op flush => "+bmErr(err))
 			lines = append(lines, bmStateLine(idx, d))
+			rex.run()
 		case "search":
+			cmd := cmd
 			s := idx.NewSearch().WithQuery(cmd.Queries...)
 			if !cmd.NoK {
 				s = s.WithK(cmd.K)
@@ -448,28 +455,31 @@ func execBM(c *bmCase) []string {
 			if len(cmd.Filter) > 0 {
 				s = s.WithDocumentIDs(cmd.Filter...)
 			}
-			res, err := s.Execute()
-			var b strings.Builder
-			if err != nil {
-				b.WriteString("err " + bmErr(err))
-			} else {
-				b.WriteString("ok")
-				for _, h := range res {
-					fmt.Fprintf(&b, " %d:%s", h.GetId(), core.Hex32(h.GetScore()))
+			rex.next(func() {
+				res, err := s.Execute()
+				var b strings.Builder
+				if err != nil {
+					b.WriteString("err " + bmErr(err))
+				} else {
+					b.WriteString("ok")
+					for _, h := range res {
+						fmt.Fprintf(&b, " %d:%s", h.GetId(), core.Hex32(h.GetScore()))
+					}
 				}
-			}
-			qs := make([]string, len(cmd.Queries))
-			for i, q := range cmd.Queries {
-				qs[i] = d.list(bmTokenize(q))
-			}
-			k := cmd.K
-			if cmd.NoK {
-				k = 10
-			}
-			lines = append(lines, strings.TrimRight(fmt.Sprintf("op search %d %s %s %s", k, core.IDs(cmd.Filter), cmd.Agg,
-				strings.Join(qs, " ")), " ")+" => "+b.String())
+				qs := make([]string, len(cmd.Queries))
+				for i, q := range cmd.Queries {
+					qs[i] = d.list(bmTokenize(q))
+				}
+				k := cmd.K
+				if cmd.NoK {
+					k = 10
+				}
+				lines = append(lines, strings.TrimRight(fmt.Sprintf("op search %d %s %s %s", k, core.IDs(cmd.Filter), cmd.Agg,
+					strings.Join(qs, " ")), " ")+" => "+b.String())
+			})
 		}
 	}
+	rex.run()
 	return append(lines, "end")
 }
 
